@@ -161,6 +161,78 @@ def gen_c03(g, budget, optional=False):
     return qs
 
 
+def enum_c03(g, fraction):
+    """Exhaustive small-scope enumeration (DESIGN 5/C03 E): all one-clause shapes over a small
+    vocabulary with every subset of <= 2 aliases, and all two-clause shapes over a reduced vocabulary
+    with at most one alias, each over fixed graph contents.  fraction < 1: seeded sample."""
+    import itertools
+    S, P, O, clause = bqlgen.S, bqlgen.P, bqlgen.O, bqlgen.clause
+    sid = bqlu.sid
+    contents = [[1, 2, 3, 4, 5, 6, 11, 15, 16, 19, 20, 23, 24], [2, 3, 13, 14, 17, 26, 27, 28, 29, 30, 9, 18]]
+
+    def alias_slots(c):
+        slots = [("s", "as"), ("s", "ty"), ("s", "id"), ("p", "as"), ("p", "id")]
+        if not c["p"]["bd"]:
+            slots.append(("p", "at"))
+        o = c["o"]
+        if o["ck"] in ("I", "F", "X", "B"):
+            slots += [("o", "as")]
+        elif o["ck"] == "N":
+            slots += [("o", "as"), ("o", "ty"), ("o", "id")]
+        elif o["ck"] == "P" or o["pid"]:
+            slots += [("o", "as"), ("o", "id")] + ([] if o["bd"] else [("o", "at")])
+        else:
+            slots += [("o", "as"), ("o", "ty"), ("o", "id"), ("o", "at")]
+        return slots
+
+    def with_aliases(c, chosen, tag):
+        c = bqlgen.clone(c)
+        for i, (part, k) in enumerate(chosen):
+            c[part][k] = "?%s%s%s" % (tag, part, k)
+        return c
+
+    subj1 = [S(c=1), S(c=3), S(b="?a")]
+    pred1 = [P(c=1), P(c=2), P(b="?b"), P(pid=sid("p"), ab="?t"), P(pid=sid("p"), bd=True), P(pid=sid("p"), bd=True, lo=2, hi=4),
+             P(pid=sid("q"), bd=True, lo=0, hi=2)]
+    obj1 = [O(cell=bqlu.N(2)), O(cell=bqlu.I(-5)), O(cell=bqlu.P(2)), O(b="?c"), O(b="?a"), O(pid=sid("p"), ab="?u"),
+            O(pid=sid("p"), bd=True, lo=1, hi=4)]
+    out = []
+    for s_, p_, o_ in itertools.product(subj1, pred1, obj1):
+        base = clause(bqlgen.clone(s_), bqlgen.clone(p_), bqlgen.clone(o_))
+        slots = alias_slots(base)
+        for k in (0, 1, 2):
+            for chosen in itertools.combinations(slots, k):
+                c = with_aliases(base, chosen, "x")
+                if not bqlgen.names_of(c):
+                    continue
+                for content in contents:
+                    if g.rng.random() >= fraction:
+                        continue
+                    glo, ghi = g.rng.choice([(0, 0), (0, 0), (2, 4), (0, 2), (3, 0)])
+                    graphs = [content] if g.rng.random() < 0.7 else g.split(content, 2)
+                    out.append({"clauses": [c], "proj": bqlgen.pattern_names([c]), "graphs": graphs, "glo": glo, "ghi": ghi, "alt": False})
+    subj2 = [S(c=1), S(b="?a"), S(b="?b")]
+    pred2 = [P(c=1), P(b="?p"), P(pid=sid("p"), ab="?t")]
+    obj2 = [O(cell=bqlu.N(2)), O(b="?b"), O(b="?c"), O(b="?a")]
+    shapes = [clause(bqlgen.clone(a), bqlgen.clone(b), bqlgen.clone(c)) for a, b, c in itertools.product(subj2, pred2, obj2)]
+    for c1, c2 in itertools.product(shapes, shapes):
+        variants = [(c1, c2)]
+        for which, c in ((0, c1), (1, c2)):
+            for slot in alias_slots(c):
+                pair = [c1, c2]
+                pair[which] = with_aliases(c, [slot], "y%d" % which)
+                variants.append(tuple(pair))
+        for a, b in variants:
+            if not bqlgen.names_of(a) or not bqlgen.names_of(b):
+                continue
+            if g.rng.random() >= fraction:
+                continue
+            content = contents[0] if g.rng.random() < 0.6 else contents[1]
+            cls = [bqlgen.clone(a), bqlgen.clone(b)]
+            out.append({"clauses": cls, "proj": bqlgen.pattern_names(cls), "graphs": [content], "glo": 0, "ghi": 0, "alt": False})
+    return out
+
+
 def q_text(q):
     return bqlgen.render_select({"select": q["proj"], "ngraphs": len(q["graphs"]), "clauses": q["clauses"],
                                  "glo": q["glo"], "ghi": q["ghi"], "alt": q.get("alt", False)})
@@ -195,6 +267,11 @@ def check_q(prop, v, tier, d):
     g = Gen(vlib.seed() * 7919 + (3 if prop == "C03" else 10))
     budget = {"C03": (6000, 150000), "C10": (4000, 80000)}[prop][0 if tier == "quick" else 1]
     qs = gen_c03(g, budget, optional=(prop == "C10"))
+    n_enum = 0
+    if prop == "C03":
+        eq = enum_c03(g, 0.06 if tier == "quick" else 1.0)
+        n_enum = len(eq)
+        qs = eq + qs
     cases = []
     for i, q in enumerate(qs):
         q["id"] = i
@@ -233,7 +310,8 @@ def check_q(prop, v, tier, d):
         v.reject(name, {"text": c["text"], "graphs": q["graphs"], "class": cls, "err": r["err"][:200], "rows": r["rows"][:6]},
                  {"case": c, "event": events[idx]})
     v.cov.update({"states": states, "transitions": len(events), "traces_validated_against_impl": len(events),
-                  "queries_generated": len(cases), "queries_judged": len(events) - opens, "open_not_judged": opens,
+                  "queries_generated": len(cases), "enumerated_small_scope_shapes": n_enum, "exhaustive": prop == "C03" and tier == "thorough",
+                  "queries_judged": len(events) - opens, "open_not_judged": opens,
                   "distinct_queries": len(distinct), "nonempty_results": stats["nonempty"],
                   "parser_rejected_not_judged": stats["parser_rejected"], "exec_errors": stats["exec_errors"],
                   "parse_dump_mismatch": stats["dump_mismatch"], "rejected_events": len(rejects),
